@@ -11,11 +11,14 @@ import GrcVerif.IR
 import GrcVerif.Rules
 import GrcVerif.Precedence
 import GrcVerif.Check03
+import GrcVerif.SfntCheck
 namespace Grc.Driver
 
 structure State where
   font : Option ByteArray := none
   sfnt : Option Sfnt := none
+  inFont : Option ByteArray := none
+  inSfnt : Option Sfnt := none
   ir : ProgIR := {}
 
 def getTable (st : State) (tag : Nat) : Except String ByteArray :=
@@ -239,6 +242,33 @@ def cmdC04 (st : State) : Except String (List String) := do
   if out.isEmpty then return [s!"ok classDefs={nDefs} substItems={nItems} linear={silf.classes.linear.size} indexed={silf.classes.indexed.size}", "done"]
   return out ++ ["done"]
 
+/-- C08: container validity of the loaded output font, preservation relative to the loaded input font. -/
+def cmdC08 (st : State) (renamed : Bool) : List String :=
+  match st.font, st.sfnt with
+  | some ob, some fo =>
+    let c := SfntChk.checkContainer ob fo
+    let rest : List String :=
+      match st.inFont, st.inSfnt with
+      | some ib, some fi =>
+        let pres := SfntChk.checkPreserved ib fi ob fo
+        let names : List String :=
+          match fi.find? tagName, fo.find? tagName with
+          | some ei, some eo =>
+            match tableBytes ib ei, tableBytes ob eo with
+            | some ti, some to =>
+              match P.run parseName ti, P.run parseName to with
+              | .ok ri, .ok ro => SfntChk.checkNames ri ro renamed
+              | .error e, _ => [s!"input name table: {e}"]
+              | _, .error e => [s!"output name table: {e}"]
+            | _, _ => ["name table out of bounds"]
+          | _, _ => []
+        pres ++ names
+      | _, _ => ["no input font loaded"]
+    let all := c ++ rest
+    if all.isEmpty then [s!"ok tables={fo.dir.length} size={ob.size}", "done"]
+    else all.map (fun m => s!"FAIL {m}") ++ ["done"]
+  | _, _ => ["error no font", "done"]
+
 def step (st : State) (toks : List String) : IO (State × List String) := do
   match toks with
   | [] => return (st, [])
@@ -249,6 +279,15 @@ def step (st : State) (toks : List String) : IO (State × List String) := do
       | .ok f => return ({ st with font := some buf, sfnt := some f }, [s!"ok font size={buf.size} tables={f.dir.length}"])
       | .error e => return ({ st with font := some buf, sfnt := none }, [s!"error sfnt: {e}"])
     catch e => return (st, [s!"error io: {e}"])
+  | ["infont", path] =>
+    try
+      let buf ← IO.FS.readBinFile path
+      match P.run parseSfnt buf with
+      | .ok f => return ({ st with inFont := some buf, inSfnt := some f }, [s!"ok infont size={buf.size} tables={f.dir.length}"])
+      | .error e => return ({ st with inFont := none, inSfnt := none }, [s!"error sfnt: {e}"])
+    catch e => return (st, [s!"error io: {e}"])
+  | ["c08"] => return (st, cmdC08 st false)
+  | ["c08", "renamed"] => return (st, cmdC08 st true)
   | ["ir", path] =>
     try
       let text ← IO.FS.readFile path
